@@ -39,7 +39,9 @@ CHECKS["C02"] = dict(
                 "every entry point and the raw value bytes must be identical. Thorough tier is exhaustive over all 2^32 float32 patterns."),
     technique="runtime monitoring: reference-encoder oracle + metamorphic entry-point comparison over seeded/exhaustive value spaces",
     stages=lambda tier: [dict(variant="vh", cmd="c02", shards=16, timeout=3000),
-                         dict(variant="vh", cmd="c02-floats", shards=16, timeout=3000)],
+                         dict(variant="vh", cmd="c02-floats", shards=16, timeout=3000),
+                         dict(variant="vh", cmd="c02-runes", shards=8, timeout=3000),
+                         dict(variant="vh", cmd="c02-lengths", shards=4, timeout=3000)],
     rule=("cases = (a) class-alphabet strings up to length L through every string-carrying call/front-end, (b) one metamorphic program per "
           "(scalar kind, generated value, random time/duration/precision/error-marshal settings) logging the value through Event, Context, "
           "Dict, Object, Func, Array, Fields(map/slice/pointer) and the slice variant, (c) float32 bit patterns (stride 1021 quick, all 2^32 "
@@ -259,7 +261,9 @@ CHECKS["C08"] = dict(
     technique="runtime monitoring: differential execution of JSON and binary builds on one seeded workload, kind-aware value comparison",
     stages=lambda tier: [dict(variant="vh", cmd="c08-emit", shards=16, timeout=3000, phase=0),
                          dict(variant="vh-bin", cmd="c08-emit", shards=16, timeout=3000, phase=0),
-                         dict(variant="vh", cmd="c08-compare", shards=16, timeout=3000, phase=1)],
+                         dict(variant="vh", cmd="c08-compare", shards=16, timeout=3000, phase=1),
+                         dict(variant="vh-bin", cmd="c08-runes", shards=8, timeout=3000, phase=1),
+                         dict(variant="vh-bin", cmd="c08-lengths", shards=4, timeout=3000, phase=1)],
     rule=("one case = one seeded modelled program restricted to the statement's domain (FloatingPointPrecision -1, 4/16-byte IPs, 6-byte MACs, "
           "canonical prefixes, times in 1970-2100); evaluations also counts recorded events of the two emit phases; non-trivial = an event was "
           "compared and the program has a container; distinct by hash of (settings, JSON-build bytes)"),
@@ -457,32 +461,44 @@ CHECKS["C12"] = dict(
 _ADD = {
     "C01": " A quarter of the cases run after a pool history (see C02); UpdateContext steps are accompanied by a copy of the logger taken "
            "before the update and updated afterwards (its field must never show).",
-    "C02": " Half of the cases run after a pool history: filtered, discarded and unfinished events that were handed arrays, dictionaries and "
+    "C02": " Exhaustive sweeps: every Unicode code point (1 114 112, surrogates also as raw bytes) as key, text, bytes, slice / array / dict / "
+           "context member and message; every length 0..1100 and around 2^16 for keys, text, bytes, hex, messages and typed slices; every "
+           "prefix length of both address families - each read back with the harness's parser and encoding/json."
+           " Half of the cases run after a pool history: filtered, discarded and unfinished events that were handed arrays, dictionaries and "
            "objects of their own.",
-    "C04": " WithLevel(Panic/Fatal), Info and Log are also called right after a Panic() event that was written, discarded by the caller or by a hook, "
+    "C04": " Loggers derived under one global level are used under another (the level counts when the event is logged); GetLevel returns "
+           "what Level was given." " WithLevel(Panic/Fatal), Info and Log are also called right after a Panic() event that was written, discarded by the caller or by a hook, "
            "sampled out or filtered (and recovered from). During the inertness sweep the package-level callbacks (TimestampFunc, the error / stack / interface / caller / level marshal "
            "functions) are replaced by counting ones.",
-    "C06": " Next to the console destinations another goroutine logs through a ConsoleWriter whose destination refuses or truncates every line."
+    "C06": " Destination kind 9: half of the workers reach a SyncWriter-wrapped destination through SyncWriter(SyncWriter(dest))."
+           " Next to the console destinations another goroutine logs through a ConsoleWriter whose destination refuses or truncates every line."
            " Some chains start with Logger.Panic() (recovered): the event carries a completion callback while other goroutines take events "
            "from the same pool.",
-    "C08": " The settings include caller-supplied InterfaceMarshalFunc values (wrapping, always failing): whatever they render, both builds "
+    "C08": " The same code-point, length and prefix-length sweeps as C02 run in the binary build through the bundled decoder."
+           " The settings include caller-supplied InterfaceMarshalFunc values (wrapping, always failing): whatever they render, both builds "
            "must show the same.",
-    "C14": " Panic-level events start with Logger.Panic() (recovered) in half of the cases.",
+    "C14": " A fifth of the cases reach the destinations through a logger derived with Output(root); a third of the events carry nested "
+           "dictionaries and an array of dictionaries (several pooled objects at once, also right after a failed write)."
+           " Panic-level events start with Logger.Panic() (recovered) in half of the cases.",
     "C15": " Some bodies end in CR LF or consist of CR LF only.",
-    "C17": " G goroutines (2-16, GOMAXPROCS 1/2/16) decode their own valid or truncated streams at the same time through all entry points, also into "
+    "C17": " In the binary build every strict prefix of a single event is also handed to ConsoleWriter.Write, which must return an error."
+           " G goroutines (2-16, GOMAXPROCS 1/2/16) decode their own valid or truncated streams at the same time through all entry points, also into "
            "a destination that yields inside Write: every result must equal the same decode done alone (also under the race detector)."
            " Text contents are also enumerated from 18 units (ASCII needing escapes, well-formed multi-byte runes incl. U+FFFD, truncated / "
            "overlong / surrogate / out-of-range sequences) up to three units, in six positions. A shard whose input runs for 20 s stops with "
            "a suspicion; the witness is decoded alone under RLIMIT_CPU (200 CPU-seconds) and reported as non-termination if it uses them up.",
-    "C18": " Remote addresses include bare IPv6 literals without port.",
+    "C18": " In a third of the rounds every request context derives from one shared context that already carries a logger (BaseContext); that "
+           "logger must be unchanged afterwards." " Remote addresses include bare IPv6 literals without port.",
     "C03": " Msgf finalizers are also written without operands, with text that means something to fmt (escaped / dangling percent signs, verbs "
            "without operands); the slice handed to Hook(...) is overwritten by the caller afterwards.",
     "C05": " The slice handed to Hook(...) is overwritten by the caller right after the call.",
     "C12": " One run in eight contains a zero-length message (Write(nil) / Write([]byte{})).",
     "C10": " One run in eight contains a zero-length message.",
-    "C11": " One run in eight contains a zero-length message.",
-    "C13": " A quarter of the Logger runs derive their loggers (Sample, With, Output) while sampling is globally disabled and re-enable it before logging.",
-    "C16": " Before a fifth of the renderings another ConsoleWriter edits, in place, the PartsOrder its constructor gave it.",
+    "C11": " One run in eight contains a zero-length message; in a quarter of the runs two goroutines call Close at once (whichever returns "
+           "first, the backlog has been delivered or reported); one run in sixteen writes nothing at all.",
+    "C13": " Events also start with Logger.Panic() (recovered) and WithLevel(Fatal/Panic)."
+           " A quarter of the Logger runs derive their loggers (Sample, With, Output) while sampling is globally disabled and re-enable it before logging.",
+    "C16": " One program in eight has events with dozens of fields (FieldsOrder over more than 16 names)." " Before a fifth of the renderings another ConsoleWriter edits, in place, the PartsOrder its constructor gave it.",
     "C19": " Helper chains 5 to 1000 frames deep report their caller with one CallerSkipFrame(N+2) or N+2 calls of CallerSkipFrame(1)."
            " Every third statement runs after a pool history: events discarded (by the caller or a hook), filtered, panicking or written "
            "elsewhere, with skip counts of their own.",
@@ -497,3 +513,6 @@ CHECKS["C17"]["require"]["text_grid_inputs"] = 10000
 CHECKS["C17"]["require"]["concurrent_decodes"] = 1000
 CHECKS["C12"]["require"]["runs_with_zero_length_message"] = 50
 CHECKS["C13"].setdefault("require", {})["loggers_derived_while_sampling_disabled"] = 100
+CHECKS["C02"]["require"]["code_points_logged"] = 1114112
+CHECKS["C08"].setdefault("require", {})["code_points_logged"] = 1114112
+CHECKS["C18"].setdefault("require", {})["rounds_with_a_logger_in_the_base_context"] = 20
